@@ -65,6 +65,16 @@ def router_check(pid, tier):
         for v in server_part["viol"]:
             if pid in v["props"]:
                 viols.append(dict(v, router="server", kind="server:" + v["kind"], schedule=None, trace=v.get("context", [])))
+    pl_part = None
+    if pid == "C10":
+        # the client library's side (rejected repliers keep re-registering) together with the server
+        import e2e_checks
+        pl_part = e2e_checks.replife_pipeline(tier)
+        if not pl_part["model_ok"]:
+            raise ToolError("TLC reports ReplierLife violates its properties:\n" + pl_part["model_tail"])
+        for v in pl_part["viol"]:
+            if pid in v["props"]:
+                viols.append(dict(v, router="replife", kind="replife:" + v["kind"]))
     sd_part = None
     if pid == "C16":
         # Server::shutdown itself (lock order, close-then-join) and the real signal path
@@ -95,8 +105,8 @@ def router_check(pid, tier):
     cov = {
         "states": sum(r["model"]["states"] for r in results),
         "transitions": sum(r["model"]["transitions"] for r in results),
-        "traces_validated_against_impl": sum(r["runs"] for r in results) + (fan_part["runs"] if fan_part else 0) + (sd_part["runs"] if sd_part else 0),
-        "events_validated": sum(r["events"] for r in results) + (fan_part["events"] if fan_part else 0) + (sd_part["events"] if sd_part else 0),
+        "traces_validated_against_impl": sum(r["runs"] for r in results) + (fan_part["runs"] if fan_part else 0) + (sd_part["runs"] if sd_part else 0) + (pl_part["runs"] if pl_part else 0),
+        "events_validated": sum(r["events"] for r in results) + (fan_part["events"] if fan_part else 0) + (sd_part["events"] if sd_part else 0) + (pl_part["events"] if pl_part else 0),
         "exhaustive": True,
         "models": [{k: m[k] for k in ("module", "cfg", "states", "transitions", "depth", "wall_s",
                                        "action_coverage", "actions_never_taken")} for r in results for m in r["models"]],
@@ -110,6 +120,8 @@ def router_check(pid, tier):
         "samples": [s for r in results for s in r["samples"]][:4],
         "server_level": ({"name_isolation_pairs": 6, "concurrent_first_registration_rounds": e2e_checks.TIERS[tier]["race"],
                           "events_validated": server_part["events"], "models": server_part["models"]} if server_part else None),
+        "system_level_repliers": ({k: pl_part[k] for k in ("models", "schedules_distinct", "schedules_used", "events", "answers_checked",
+                                                            "probes_after_changes", "n_viol", "n_inconclusive", "sample", "wall_s")} if pl_part else None),
         "system_level_shutdown": ({k: sd_part[k] for k in ("models", "cases_total", "cases_used", "stalled_cases", "events", "listen_returned",
                                                             "listen_hung_with_a_peer_that_does_not_read", "n_viol", "n_inconclusive", "sample", "wall_s")}
                                   if sd_part else None),
@@ -203,6 +215,27 @@ def replay(pid, path):
         print("server-level case: re-run ./check %s (deterministic for VERIF_SEED); recorded context:" % pid)
         print(json.dumps(payload.get("trace"), indent=1)[:6000])
         return 0
+    if payload.get("router") == "replife":
+        from common import BIN, sh, tlc
+        build_harness()
+        work = Work("replay")
+        try:
+            sf = work.path("sched.jsonl")
+            with open(sf, "w") as f:
+                f.write(json.dumps(payload["schedule"]) + "\n")
+            tr = work.path("trace.ndjson")
+            sh([os.path.join(BIN, "e2e"), "replife", "--cases", sf, "--out", tr, "--par", "1"], timeout=600)
+            print(open(tr).read())
+            r = tlc("Trace_ReplierLife", "Trace_ReplierLife.cfg", work, workers=1, trace=tr, timeout=600)
+            for v in r.viol:
+                print("flagged:", v)
+            if [v for v in r.viol if pid in v["props"]]:
+                print("VIOLATION property=%s replay=%s" % (pid, path))
+                return 1
+            print("replay: no violation of %s" % pid)
+            return 0
+        finally:
+            work.cleanup()
     if payload.get("router") == "system":
         import e2e_checks
         from common import BIN, sh, tlc
